@@ -87,6 +87,11 @@ impl Context {
         requires old(self).stream.is_some(),
         ensures r == old(self).stream.unwrap(), final(self).stream.is_none(), final(self).frames_set == old(self).frames_set,
     { unimplemented!() }
+    /// set_client_stream(): puts a stream (back) into the context
+    #[verifier::external_body]
+    pub fn set_client_stream(&mut self, s: ClientStream) -> (r: &mut Self)
+        ensures final(self).stream == Some(s), final(self).frames_set == old(self).frames_set,
+    { unimplemented!() }
     #[verifier::external_body]
     pub fn extra(&self, k: &str) -> (r: Option<&str>) { unimplemented!() }
     #[verifier::external_body]
